@@ -30,18 +30,22 @@ def ranges(ns):
 
 
 def main():
-    args = sys.argv[1:]
+    args = [a for a in sys.argv[1:] if a != "--summarise-only"]
     tier = "quick"
     if "--tier" in args:
         i = args.index("--tier"); tier = args[i + 1]; del args[i:i + 2]
     man = json.load(open(os.path.join(V, "MANIFEST.json")))
     props = args or [c["property_id"] for c in man["checks"]]
     cov = vlib.BUILD / "cov"
-    if not args:
+    if not args and "--summarise-only" not in sys.argv:
         for f in glob.glob(str(cov / "**" / "*.gcda"), recursive=True):
             os.remove(f)
     runs = {}
-    for p in props:
+    if "--summarise-only" in sys.argv:
+        props_run = []
+    else:
+        props_run = props
+    for p in props_run:
         t = time.time()
         r = subprocess.run([sys.executable, "check.py", p, "--tier", tier], cwd=V, stdout=subprocess.PIPE, stderr=subprocess.STDOUT, text=True)
         last = [l for l in r.stdout.strip().split("\n") if l.startswith(("PASS", "FAIL"))]
@@ -59,7 +63,7 @@ def main():
     summary = {}
     for f in sorted(data["files"], key=lambda x: x["file"]):
         name = f["file"].replace("src/BayesFilters/", "")
-        lines = f["lines"]
+        lines = [l for l in f["lines"] if not l.get("gcovr/noncode") and not l.get("gcovr/excluded")]
         nl = len(lines); hl = sum(1 for l in lines if l["count"] > 0)
         nb = sum(len(l.get("branches", [])) for l in lines); hb = sum(1 for l in lines for b in l.get("branches", []) if b["count"] > 0)
         miss = [l["line_number"] for l in lines if l["count"] == 0]
